@@ -144,6 +144,33 @@ func runCheck(args []string) int {
 			extraCov[k] = v
 		}
 	}
+	// thorough tier: the property's replay harness is also run as a search over the real code
+	// (bounded exploration on top of the discharged obligations; a hit is a concrete failing input)
+	if (*tier == "thorough" || os.Getenv("VERIF_SEARCH") == "1") && cfg.Replay != "" {
+		already := false
+		for _, e := range cfg.Engines {
+			if e == "bounded:"+cfg.Replay {
+				already = true
+			}
+		}
+		if !already {
+			hits, log, err := runHarness(*verif, *repo, cfg.Replay, replayReq{Property: prop, Tier: *tier, Seed: seed})
+			o := &Obligation{Func: "spg", Kind: "bounded", Name: "search/" + cfg.Replay, Props: []string{prop}, Solver: "bounded"}
+			switch {
+			case err != nil:
+				o.Result, o.Raw = "unknown", err.Error()
+			case len(hits) > 0:
+				o.Result, o.Raw = "violated", hits[0].Observed
+				o.Input, o.Observed, o.Required = hits[0].Input, hits[0].Observed, hits[0].Required
+			case strings.Contains(log, "\nok ") || strings.HasPrefix(log, "ok "):
+				o.Result = "holds"
+			default:
+				o.Result, o.Raw = "unknown", "search harness did not complete: "+trunc(log, 1500)
+			}
+			extra = append(extra, o)
+			extraCov["search_harness"] = map[string]interface{}{"harness": cfg.Replay, "tier": *tier, "hits": len(hits), "note": "bounded search by execution of the real code on top of the discharged obligations; not counted as proved"}
+		}
+	}
 	all = append(all, extra...)
 
 	// group by obligation id
@@ -597,7 +624,12 @@ func runHarness(verif, repo, harness string, req replayReq) ([]replayHit, string
 	if req.Tier == "thorough" {
 		to = "900s"
 	}
-	cmd := exec.Command("go", "test", "-overlay", ov, "-vet=off", "-count=1", "-timeout", to, "-run", "^TestVerifReplay$", pkgPath)
+	args := []string{"test", "-overlay", ov, "-vet=off", "-count=1", "-timeout", to, "-run", "^TestVerifReplay$"}
+	_, raceErr := os.Stat(filepath.Join(verif, "replay", harness, "RACE"))
+	if raceErr == nil {
+		args = append(args, "-race")
+	}
+	cmd := exec.Command("go", append(args, pkgPath)...)
 	cmd.Dir = pkgDir
 	cmd.Env = append(os.Environ(), "GOFLAGS=-mod=mod", "GOPROXY=off", "GOSUMDB=off", "GOTOOLCHAIN=local",
 		"VERIF_REPLAY_IN="+in, "VERIF_REPLAY_OUT="+out, "GOCACHE="+filepath.Join(os.TempDir(), "verif-gocache"))
@@ -607,6 +639,17 @@ func runHarness(verif, repo, harness string, req replayReq) ([]replayHit, string
 		json.Unmarshal(hb, &hits)
 	}
 	log := string(ob2)
+	if k := strings.Index(log, "WARNING: DATA RACE"); k >= 0 && raceErr == nil {
+		// the race detector's report is the failing schedule: two unsynchronised accesses with their stacks
+		rep := log[k:]
+		if e := strings.Index(rep, "=================="); e > 0 {
+			rep = rep[:e]
+		}
+		if len(rep) > 3000 {
+			rep = rep[:3000]
+		}
+		hits = append([]replayHit{{Input: "concurrent calls on shared values (see replay/" + harness + ")", Observed: "data race reported by the Go race detector: " + rep, Required: "no data race between concurrent API calls on shared recipes, word lists and separator functions"}}, hits...)
+	}
 	if runErr != nil && len(hits) == 0 {
 		// a crash of the harness itself (e.g. a panic in the code under test) is reported in the log
 		return hits, log, nil
